@@ -82,6 +82,7 @@ pub struct Fail {
 }
 
 fn execute(robot: &Arc<KinematicsWithShape>, case: &Case, cfg: &SimCfg) -> SimOut<Obs> {
+    report::progress_case(|| { let mut c = case.clone(); c.cfgs = vec![cfg.clone()]; c.cfgs_other_rng.clear(); json!({"check": "C12", "case": c}) });
     let robot = robot.clone();
     let c = case.clone();
     sim::simulate(cfg, move || {
@@ -766,6 +767,7 @@ pub fn run(tier_name: &str, seed: u64) -> i32 {
     let tally = report::run_shards(t.shards, |shard| {
         let mut tally = Tally::default();
         for run in 0..t.per_shard {
+            report::progress(shard, run);
             let Some((case, layout)) = gen_case(seed, shard as u64, run as u64, &t) else {
                 tally.bump("scenarios_without_free_start", 1);
                 continue;
